@@ -579,7 +579,7 @@ impl Engine {
         let flen = |f: usize| self.corpus.files[f].bytes.len() as u64;
         match family {
             0 => self.files_of(0).iter().map(|&f| flen(f)).sum(),
-            1 => self.files_of(1).iter().map(|&f| flen(f) * 7).sum(),
+            1 => self.files_of(1).iter().map(|&f| flen(f) * 13).sum(),
             2 => self.bin.iter().map(|&f| flen(f).saturating_sub(3) * 7).sum(),
             3 => self.chunk_ops.len() as u64,
             4 => self.xml_muts.len() as u64,
@@ -621,12 +621,14 @@ impl Engine {
             }
             1 => {
                 let files = self.files_of(1);
-                let (f, i) = self.locate(&files, &|f| self.corpus.files[f].bytes.len() as u64 * 7, index);
+                let (f, i) = self.locate(&files, &|f| self.corpus.files[f].bytes.len() as u64 * 13, index);
                 let file = &self.corpus.files[f];
-                let (off, k) = ((i / 7) as usize, (i % 7) as usize);
+                let (off, k) = ((i / 13) as usize, (i % 13) as usize);
                 let mut b = file.bytes.clone();
                 let orig = b[off];
                 b[off] = match k {
+                    // every single-bit flip
+                    5..=12 => orig ^ (1u8 << (k - 5)),
                     0..=4 => {
                         if file.kind == Kind::Xml {
                             [b'<', b'>', b'&', b'"', 0x00][k]
@@ -634,8 +636,7 @@ impl Engine {
                             SUBST[k]
                         }
                     }
-                    5 => orig ^ 1,
-                    _ => orig ^ 0x80,
+                    _ => unreachable!(),
                 };
                 judge_decode(file.kind, &b, fam, false, out, &replay);
             }
@@ -1017,7 +1018,7 @@ pub fn check(run: &Run) -> Value {
             {"family": "xml-all-strings", "case": "<a/>"},
         ],
         "exhaustive": res.abandoned.is_empty(),
-        "rule": "fault enumeration around the real decoders/encoders: every strict prefix of every corpus file; every single-byte substitution from a 7-value set at every offset; every u32 window of every binary file set to 7 boundary values; every chunk deleted / duplicated / swapped / spliced from another file; every tag / attribute / text-node mutation of every XML file; every read() script with <=1 (thorough: <=2) deviations {Short(1), Short(half), Interrupted} and the one-byte reader; a failing sink at every output offset (Err and Ok(0)) and a one-byte sink; all byte strings of length <=3 into Attributes::from_reader; all strings of length <=5 (thorough 6) over a 14-symbol XML alphabet into rbx_xml::from_str; all binary headers differing from a valid one in <=2 bytes over a 5-value alphabet; legal XML nested 1000..100000 deep. A case is one (family, index) pair.",
+        "rule": "fault enumeration around the real decoders/encoders: every strict prefix of every corpus file; every single-byte substitution from a 5-value set and every single-bit flip at every offset; every chunk payload cut at every length and with every single byte deleted, re-framed consistently (uncompressed / LZ4 literals / raw zstd); every u32 window of every binary file set to 7 boundary values; every chunk deleted / duplicated / swapped / spliced from another file; every tag / attribute / text-node mutation of every XML file; every read() script with <=1 (thorough: <=2) deviations {Short(1), Short(half), Interrupted} and the one-byte reader; a failing sink at every output offset (Err and Ok(0)) and a one-byte sink; all byte strings of length <=3 into Attributes::from_reader; all strings of length <=5 (thorough 6) over a 14-symbol XML alphabet into rbx_xml::from_str; all binary headers differing from a valid one in <=2 bytes over a 5-value alphabet; legal XML nested 1000..100000 deep. A case is one (family, index) pair.",
     })
 }
 
